@@ -8,3 +8,5 @@ void monitor_end_op(Outcome &out, int opi, long info);     // end-of-op invarian
 void monitor_collect(std::vector<Viol> &into, int opi);    // move pending violations
 void monitor_probes(std::map<std::string, long> &into);
 long monitor_first_zero_col();                              // smallest 0-based column with an all-zero candidate set in the current op, or -1    // add and reset probe counters
+const std::vector<long> &monitor_stack_marks();               // caller-workspace usage after each stack operation of the current op
+long monitor_init_events();                                    // factorizations actually started in the current op
